@@ -13,7 +13,14 @@ let hex_of_str (l : BinNums.coq_N list) = hex_of_bytes l
 let strs_of (s : string) = if s = "_" then [] else L.map str_of_hex (split_on ',' s)
 let of_strs (l : BinNums.coq_N list list) = match l with [] -> "_" | _ -> S.concat "," (L.map hex_of_str l)
 
-let ni s = n_of_int (int_of_string s)
+(* decimal -> N; values beyond OCaml's int (a uint64 that wrapped in mutated code) go through N arithmetic *)
+let n_of_dec (s : string) : BinNums.coq_N =
+  let acc = ref BinNums.N0 in
+  S.iter (fun c ->
+      if c < '0' || c > '9' then failwith ("bad decimal " ^ s)
+      else acc := BinNat.N.add (BinNat.N.mul !acc (n_of_int 10)) (n_of_int (Char.code c - 48))) s;
+  !acc
+let ni s = if S.length s < 18 then n_of_int (int_of_string s) else n_of_dec s
 let si n = string_of_int (int_of_n n)
 let dots (s : string) = if s = "_" then [] else split_on '.' s
 
